@@ -120,16 +120,22 @@ fn gen_doc(cfg: &GenCfg) -> (J, String) {
     (j, text)
 }
 
+pub const BIG_N: usize = 200_000;
+
+fn big_elem(k: usize) -> J {
+    J::Num(if k % 2 == 0 { "1".into() } else { "2".into() })
+}
+
 fn read_item(it: &Item, what: &str) -> Result<(), Violation> {
     if it.big {
+        // the big document [1,2,1,2,...] is not kept as a model tree (200 000 nodes): its elements are a formula
         return libcall("read big", || {
             let a = it.v.as_array().ok_or_else(|| Violation::new("mismatch/as_array", format!("{}: big document is not an array", what)))?;
-            let J::Arr(m) = &it.m else { unreachable!() };
-            if a.len() != m.len() {
-                return Err(Violation::new("mismatch/array.len", format!("{}: {} != {}", what, a.len(), m.len())));
+            if a.len() != BIG_N {
+                return Err(Violation::new("mismatch/array.len", format!("{}: {} != {}", what, a.len(), BIG_N)));
             }
-            for i in [0, 1, m.len() / 2, m.len() - 1] {
-                oracle::check_scalars(&a[i], &m[i], what)?;
+            for i in [0, 1, 2, BIG_N / 2, BIG_N / 2 + 1, BIG_N - 2, BIG_N - 1] {
+                oracle::check_scalars(&a[i], &big_elem(i), what)?;
             }
             Ok(())
         })?;
@@ -634,7 +640,7 @@ fn thread_body(t: usize, nthreads: usize, nops: u32, cfg: GenCfg, errs: Arc<Mute
                         release(&origins);
                     } else if allow_big && chance(1, 3) {
                         // a document big enough for the node buffer's heap fallback
-                        let n = 200_000usize;
+                        let n = BIG_N;
                         let mut text = String::with_capacity(2 * n + 2);
                         text.push('[');
                         for k in 0..n {
@@ -647,8 +653,7 @@ fn thread_body(t: usize, nthreads: usize, nops: u32, cfg: GenCfg, errs: Arc<Mute
                         tr!("T{} parse big document ({} elements)", t, n);
                         let id = new_doc_id();
                         let v = libcall("from_str(big)", || sonic_rs::from_str::<Value>(&text))?.map_err(|e| parse_err("from_str(big)", "[1,2,...]", e))?;
-                        let m = J::Arr((0..n).map(|k| J::Num(if k % 2 == 0 { "1".into() } else { "2".into() })).collect());
-                        bag.push(Item { v, m, origins: vec![id], big: true });
+                        bag.push(Item { v, m: J::Null, origins: vec![id], big: true });
                     }
                 }
             }
